@@ -172,6 +172,11 @@ class Path:
             if ep == self.epoch:
                 return t
             return self.atom("rd(%s|%s)@%d" % (canon(t), self.oid(name), self.epoch))
+        if name in _CUR_LOCALS[0]:
+            # a local of the function that no statement on this path has bound yet: python raises UnboundLocalError here - an observable
+            # event even when the value would only have fed a pure computation nobody uses
+            self.trace.append(("unbound-read", name, self.epoch))
+            return self.atom("unbound(%s)@%d" % (name, self.epoch))
         return self.atom("%s@%d" % (name, self.epoch))
 
     def op(self, text):
@@ -533,6 +538,7 @@ def _stringy(e):
 
 
 _CUR_FUNC = [None]
+_CUR_LOCALS = [frozenset()]
 
 
 def _mentions(node, v):
@@ -639,11 +645,14 @@ def explore(stmts, env, scope, inherited=None, epoch0=0, objid=None, dead=()):
 def summary(func):
     """canonical summary of a FunctionDef (after canonicalisation); raises TooManyPaths"""
     body = [s for s in func.body if not (isinstance(s, ast.Expr) and isinstance(s.value, ast.Constant))]
+    from .canon import locals_of
     _CUR_FUNC[0] = func
+    _CUR_LOCALS[0] = frozenset(locals_of(func))
     try:
         paths = explore(body, {}, "n")
     finally:
         _CUR_FUNC[0] = None
+        _CUR_LOCALS[0] = frozenset()
     # the final bindings of locals are irrelevant at function level: keep decisions, trace, outcome
     return _drop_unobserved_ids(tuple((d, t, _observable_identity(t, o)) for d, t, o, _ in paths))
 
@@ -698,10 +707,33 @@ def signature(func):
     return (ast.dump(func.args), tuple(ast.dump(d) for d in func.decorator_list), func.name)
 
 
-def functions_equivalent(cfunc, rfunc):
+def free_names(func):
+    """names the function reads that it neither binds nor receives: resolved in the module / builtins at run time"""
+    from .canon import locals_of, params_of
+    bound = locals_of(func) | params_of(func)
+    for n in ast.walk(func):
+        if isinstance(n, (ast.FunctionDef, ast.AsyncFunctionDef, ast.Lambda)) and n is not func:
+            bound |= params_of(n)
+        elif isinstance(n, ast.comprehension):
+            bound |= {x.id for x in ast.walk(n.target) if isinstance(x, ast.Name)}
+        elif isinstance(n, (ast.Import, ast.ImportFrom)):
+            bound |= {(a.asname or a.name).split(".")[0] for a in n.names}
+        elif isinstance(n, ast.ExceptHandler) and n.name:
+            bound.add(n.name)
+    return {n.id for n in ast.walk(func) if isinstance(n, ast.Name) and isinstance(n.ctx, ast.Load) and n.id not in bound}
+
+
+def functions_equivalent(cfunc, rfunc, module_names=None):
     """-> (True, '') | (False, reason)"""
     if signature(cfunc) != signature(rfunc):
         return False, "signature / decorators differ"
+    # a name that is read but bound nowhere (its only assignment was removed) is a NameError at run time; the summaries cannot see that,
+    # because a read of a free name is just a symbol: every free name must be one the reference reads too, a module-level name or a builtin
+    import builtins
+    known = free_names(rfunc) | set(dir(builtins)) | set(module_names or ())
+    undefined = sorted(free_names(cfunc) - known)
+    if undefined:
+        return False, "reads name(s) bound nowhere: %s" % ", ".join(undefined[:4])
     try:
         a = summary(cfunc)
         b = summary(rfunc)
@@ -745,7 +777,15 @@ def package_equivalent(repo, ref):
                 continue
             # cheap necessary condition first: a first-order edit that is not the identity cannot be equivalent unless the summaries say so;
             # the summaries of large functions cost seconds, so stop at the first function that is not equivalent
-            ok, why = functions_equivalent(cf[name], rf[name])
+            mod_names = set()
+            for n_ in ct.body:
+                if isinstance(n_, (ast.FunctionDef, ast.ClassDef)):
+                    mod_names.add(n_.name)
+                elif isinstance(n_, (ast.Import, ast.ImportFrom)):
+                    mod_names |= {(a.asname or a.name).split(".")[0] for a in n_.names}
+                elif isinstance(n_, (ast.Assign, ast.AnnAssign, ast.AugAssign)):
+                    mod_names |= {x.id for x in ast.walk(n_) if isinstance(x, ast.Name) and isinstance(x.ctx, ast.Store)}
+            ok, why = functions_equivalent(cf[name], rf[name], module_names=mod_names)
             if ok:
                 n_equiv.append("%s.%s (%s)" % (short, name, why))
             else:
